@@ -253,6 +253,7 @@ class MailboxWorld:
     def __init__(self, seed=0, clients=(("A", "deferred"), ("B", "deferred")), appids=None,
                  welcome=None, acks=False, sides=None, versions=None, dilation=False):
         reactor.reset()
+        self.seed = seed
         self.rng = random.Random(seed)
         random.seed(seed)
         self.server = ServerTwin(welcome=welcome, acks=acks)
@@ -561,9 +562,22 @@ class MailboxWorld:
         data = act["data"]
         if isinstance(data, str):
             data = bytes.fromhex(data)
+        data = self.concrete_payload(data)
         r = cl.api("send_message", cl.w.send_message, data)
         if not isinstance(r, Exception):
             cl.sent.append(data)
+
+    def concrete_payload(self, label):
+        """the schedule names messages m:<side>:<k>; what is actually sent varies with the run: the label itself, binary
+        with NULs and newlines, an empty first message and 75 kB ones, non-ASCII text (distinct per message throughout)"""
+        prof = self.seed % 4
+        if prof == 1:
+            return label + b"\x00\xff\r\n" * 40
+        if prof == 2:
+            return b"" if label.endswith(b":0") else label + bytes(range(256)) * 300
+        if prof == 3:
+            return label + "\u00fc\u2603 \U0001f600".encode("utf-8")
+        return label
 
     def _do_AppClose(self, act):
         cl = self.clients[act["c"]]
